@@ -12,7 +12,7 @@ I64_MAX = (1 << 63) - 1
 
 
 def run(chk):
-    nbytes = 12 if chk.tier == 'quick' else 24
+    nbytes = 21 if chk.tier == 'quick' else 24
     chk.bounds['header_value_bytes'] = '0..=%d symbolic bytes' % nbytes
     E = domaha.explore(chk, nbytes)
     ex = E.ex
